@@ -495,6 +495,15 @@ func execC20(sc *C20Scenario, tr *kit.Trace, res *kit.Result) {
 				res.Nontrivial = true
 				res.Probes["synthesis-withheld-under-fault"]++
 			}
+			if applies && len(got) == 0 && len(rawNative) > 0 && len(native) == 0 && m.Rcode == dns.RcodeSuccess {
+				// every AAAA the zone publishes was filtered away and nothing was synthesised in
+				// their place: the empty answer is a filtered reply all the same
+				res.Probes["all-aaaa-filtered-nothing-synthesised"]++
+				if m.AuthenticatedData {
+					res.Fail("C20/ad-on-filtered-aaaa", "%s: AD set on an empty answer left after every AAAA record of the name (%v) was filtered out", ctx, rawNative)
+					return
+				}
+			}
 			if isNative && m.AuthenticatedData && len(rawNative) != len(native) && fmt.Sprint(got) == fmt.Sprint(native) {
 				res.Fail("C20/ad-on-filtered-aaaa", "%s: AD set although excluded AAAA records were filtered out of the answer", ctx)
 				return
